@@ -48,10 +48,12 @@ func stamp(lo, hi int, pick uint64) time.Time {
 	return a.Add(b.Sub(a) / 2).Truncate(time.Minute)
 }
 
-func (e *tqEnv) field(q string, nsv bool, inst [][2]int, multi [][]int) (string, error) {
+func (e *tqEnv) field(q string, nsv, viaAPI bool, inst [][2]int, multi [][]int) (string, error) {
 	name := "f" + strings.ToLower(q)
 	if nsv {
 		name = "n" + strings.ToLower(q)
+	} else if viaAPI {
+		name = "a" + strings.ToLower(q)
 	}
 	if _, ok := e.loaded[name]; ok {
 		return name, nil
@@ -59,10 +61,10 @@ func (e *tqEnv) field(q string, nsv bool, inst [][2]int, multi [][]int) (string,
 	if _, err := e.m.API.CreateField(context.Background(), e.index, name, pilosa.OptFieldTypeTime(pilosa.TimeQuantum(q), nsv)); err != nil {
 		return "", err
 	}
-	if nsv {
+	if nsv || viaAPI {
 		// the second write path: ONE Field.Import batch holding every bit, ordered so that entries
 		// which agree in all units of the quantum (but differ in a coarser unit) are neighbours
-		if err := e.importBatch(name, q, inst, multi); err != nil {
+		if err := e.importBatch(name, q, inst, multi, viaAPI); err != nil {
 			return "", err
 		}
 		e.loaded[name] = inst
@@ -111,7 +113,7 @@ type impEntry struct {
 	key      string
 }
 
-func (e *tqEnv) importBatch(name, q string, inst [][2]int, multi [][]int) error {
+func (e *tqEnv) importBatch(name, q string, inst [][2]int, multi [][]int, viaAPI bool) error {
 	var ents []impEntry
 	add := func(row, col uint64, in [2]int, tag string) {
 		ts := stamp(in[0], in[1], behav.Hash64(fmt.Sprintf("%s/%s/%d", name, tag, e.seed)))
@@ -145,6 +147,27 @@ func (e *tqEnv) importBatch(name, q string, inst [][2]int, multi [][]int) error 
 		}
 		return ents[a].ts.Before(ents[b].ts)
 	})
+	if viaAPI {
+		// the third write path: API.Import, one request per shard, timestamps as Unix nanoseconds
+		byShard := map[uint64]*pilosa.ImportRequest{}
+		for _, en := range ents {
+			sh := en.col / pilosa.ShardWidth
+			r := byShard[sh]
+			if r == nil {
+				r = &pilosa.ImportRequest{Index: e.index, Field: name, Shard: sh}
+				byShard[sh] = r
+			}
+			r.RowIDs = append(r.RowIDs, en.row)
+			r.ColumnIDs = append(r.ColumnIDs, en.col)
+			r.Timestamps = append(r.Timestamps, en.ts.UnixNano())
+		}
+		for _, r := range byShard {
+			if err := e.m.API.Import(context.Background(), r); err != nil {
+				return fmt.Errorf("API.Import %s: %v", name, err)
+			}
+		}
+		return nil
+	}
 	fld, err := e.m.API.Field(context.Background(), e.index, name)
 	if err != nil {
 		return err
@@ -164,6 +187,7 @@ func (e *tqEnv) importBatch(name, q string, inst [][2]int, multi [][]int) error 
 type tqCase struct {
 	Beh  behav.Behaviour `json:"beh"`
 	NSV  bool            `json:"nsv"`
+	API  bool            `json:"api"` // loaded through API.Import
 	Seed int64           `json:"seed"`
 	// Corrupt: binding self-test
 	Corrupt bool `json:"corrupt,omitempty"`
@@ -193,7 +217,7 @@ func (e *tqEnv) run(c *tqCase, res *behav.Result) (fails []tqFail, q string, inc
 	if rg == nil || q == "" {
 		return nil, q, "behaviour without Field / Range"
 	}
-	name, err := e.field(q, c.NSV, inst, multi)
+	name, err := e.field(q, c.NSV, c.API, inst, multi)
 	if err != nil {
 		return nil, q, err.Error()
 	}
@@ -285,6 +309,11 @@ func TestC18Query(t *testing.T) {
 	defer finish(res)
 	before := pilosaTmpSnapshot()
 	defer cleanupPilosaTmp(before)
+	// nothing in the property depends on the zone the server process runs in: the whole driver runs
+	// with a local zone that is not UTC (set before the server starts)
+	oldLocal := time.Local
+	time.Local = time.FixedZone("X", -5*3600)
+	defer func() { time.Local = oldLocal }()
 	report := func(c *tqCase, q string, fails []tqFail) {
 		for _, f := range fails {
 			res.Fail(behav.Failure{Match: map[string]string{"binding": "query", "call": f.call, "q": q, "symptom": f.symptom},
@@ -313,7 +342,7 @@ func TestC18Query(t *testing.T) {
 	var distinct behav.Distinct
 	selfTested := false
 	for i, b := range behs {
-		c := &tqCase{Beh: b, Seed: behav.Seed(), NSV: behav.Hash64(mustJSON(b))%4 == 0}
+		c := &tqCase{Beh: b, Seed: behav.Seed(), NSV: behav.Hash64(mustJSON(b))%4 == 0, API: behav.Hash64(mustJSON(b))%4 == 1}
 		var fails []tqFail
 		var q, inc string
 		pv, stack := behav.Protect(func() { fails, q, inc = env.run(c, res) })
